@@ -1,5 +1,6 @@
 import Dbg.Driver.Util
 import Dbg.Spec.C07
+import Dbg.Model.MspSeq
 namespace Drv.C07
 open Msp
 
@@ -36,10 +37,43 @@ def parseIvs (s : String) : R (List Iv) :=
     | [a, b, c, d] => do pure ⟨← nat a, ← nat b, ← nat c, ← digits d⟩
     | _ => throw "bad-interval"
 
+def parseTriples (s : String) : R (List (Nat × Nat × Nat)) :=
+  if s == "-" then pure [] else
+  (s.splitOn ";").mapM fun t =>
+    match t.splitOn ":" with
+    | [a, b, c] => do pure (← nat a, ← nat b, ← nat c)
+    | _ => throw "bad-interval"
+
 /-- `scan <k> <p> <seq> <score> [container]` — the container (slice / string / lmer3) only selects which
     `Vmer` implementation the harness scans; the model is the same for all of them -/
 def handle (args : List String) (impl : String) : R Ans :=
   match args with
+  | ["sscan", k, p, rcm, perm, read] => do
+    -- the deprecated wrapper `simple_scan` (an observation point of C07): intervals `(bucket, start, len)`
+    let k ← nat k; let p ← nat p; let rcm ← bool rcm
+    let perm := (← natList perm).toArray
+    let seq := (← digits read).toArray
+    let model := match simpleScan k p seq perm rcm with
+      | none => "panic"
+      | some ivs => if ivs.isEmpty then "-" else ";".intercalate (ivs.map fun (b, s, l) => s!"{b}:{s}:{l}")
+    let inGuard := 1 ≤ p ∧ p ≤ 8 ∧ p ≤ k ∧ k ≤ seq.size ∧ seq.size < 2 ^ 32 ∧ 4 ^ p ≤ perm.size ∧ 2 * k - p ≤ 65535
+    let verdict ←
+      if impl == "panic" then pure (if inGuard then "FAIL:panic-inside-guard" else "ok")
+      else if ¬ inGuard then pure "ok" else do
+        let ivs ← parseTriples impl
+        let sc := fun (q : Nat) => permScore perm rcm (window seq p q)
+        let m := seq.size
+        -- start order, k-1 overlaps, every k-mer start in one interval, lengths within k..2k-p
+        let tiles := (ivs.head?.map (·.2.1) == some 0) && (ivs.getLast?.map (fun iv => iv.2.1 + iv.2.2) == some m) &&
+          (ivs.zip ivs.tail).all (fun (a, b) => a.2.1 + a.2.2 == b.2.1 + (k - 1) && a.2.1 < b.2.1) &&
+          ivs.all (fun iv => k ≤ iv.2.2 && iv.2.2 ≤ 2 * k - p)
+        -- the bucket is the canonical rank of a p-mer that lies in every k-mer of the interval and has the minimum score
+        let minOK := ivs.all fun (b, s, l) =>
+          let qs := (List.range (l + 1 - p)).map (· + s)
+          let best := qs.foldl (fun acc q => min acc (sc q)) (sc s)
+          qs.any fun q => sc q == best && s + l - k ≤ q && q + p ≤ s + k && rank (minRc (window seq p q)) % 2 ^ 16 == b
+        pure (if ¬ tiles then "FAIL:intervals-do-not-tile-the-kmer-starts" else if ¬ minOK then "FAIL:minimizer-not-minimal" else "ok")
+    pure { model, verdict }
   | ["scan", k, p, seq, score, _] => handle ["scan", k, p, seq, score] impl
   | ["scan", k, p, seq, score] => do
     let k ← nat k; let p ← nat p
